@@ -38,7 +38,14 @@ Fixpoint glob_to_regex_body (p : list N) : list N :=
       else c :: glob_to_regex_body p'
   end.
 
+(* `String::from("(?s)^")` ... `regex.push('$')`  (the flag was added by the fix dae5143) *)
+Definition flag_s_text : list N := [c_lparen; c_quest; c_s; c_rparen].   (* (?s) *)
 Definition glob_to_regex (p : list N) : list N :=
+  flag_s_text ++ c_caret :: glob_to_regex_body p ++ [c_dollar].
+
+(* the translation BEFORE that fix (no flag): kept only to document the regression it repaired
+   (Props/C19.v: c19_glob_regex_old_newline_refuted) *)
+Definition glob_to_regex_old (p : list N) : list N :=
   c_caret :: glob_to_regex_body p ++ [c_dollar].
 
 (* ================================================================================ *)
